@@ -183,6 +183,24 @@ impl Verdicts {
 pub static REPLAYS: AtomicU64 = AtomicU64::new(0);
 pub static PARSES: AtomicU64 = AtomicU64::new(0);
 
+/// one logging validator per (key, kind): its verdict never changes, so a parser can be re-configured
+/// between parses of one replay
+pub fn slot_of(k: usize, kind: Kind) -> usize {
+    k * 3
+        + match kind {
+            Kind::Accept => 0,
+            Kind::Reject => 1,
+            Kind::ValueDep => 2,
+        }
+}
+fn kind_of_slot(slot: usize) -> Kind {
+    match slot % 3 {
+        0 => Kind::Accept,
+        1 => Kind::Reject,
+        _ => Kind::ValueDep,
+    }
+}
+
 fn kind_verdict(k: usize, kind: Kind) -> Verdict {
     match kind {
         Kind::Accept => Verdict::Accept,
@@ -198,34 +216,48 @@ fn kind_accepts(k: usize, kind: Kind, actual: &Value) -> bool {
     }
 }
 
-/// Replays the configuration `path` on a fresh parser and parses every pool token (in order, then the
-/// first authentic one again) with that one parser.
+/// Replays the configuration `path` on a fresh parser. After every configuration step but the last a few
+/// probe tokens are parsed (so that anything the parser remembers from earlier parses or earlier
+/// configurations shows), after the last step every pool token is parsed, then the first one again - all
+/// with that one parser object.
 pub fn replay_and_judge(proto: Proto, flavor: Flavor, nkeys: usize, path: &[Op], pool: &Pool) -> Verdicts {
     REPLAYS.fetch_add(1, Ordering::Relaxed);
     adapter::freeze_default_clock();
+    adapter::reset_verdicts();
+    for k in 0..3 {
+        for kind in [Kind::Accept, Kind::Reject, Kind::ValueDep] {
+            adapter::set_verdict(slot_of(k, kind), kind_verdict(k, kind));
+        }
+    }
+    // probe tokens: nothing set, everything at v1, everything at v2
+    let all = |v: usize| -> String { (0..nkeys).map(|k| format!("{}={}", KEYS[k], if v == 0 { "absent".to_string() } else { format!("v{}", v) })).collect::<Vec<_>>().join(",") };
+    let probes: Vec<usize> = [0usize, 1, 2].iter().filter_map(|v| pool.tokens.iter().position(|t| t.label == all(*v))).collect();
     let mut ks = init_keys(flavor);
     let mut ops: Vec<POp> = Vec::new();
-    for op in path {
+    // for every op: None = configuration call, Some((token index, model state at that moment, is the final sweep))
+    let mut plan: Vec<Option<(usize, [KeyState; 3], bool)>> = Vec::new();
+    for (i, op) in path.iter().enumerate() {
         step(&mut ks, op);
         ops.push(match op {
             Op::Check(k, v) => POp::Check(ClaimSpec { key: KEYS[*k].into(), value: val(*k, *v), form: if KEYS[*k] == "exp" { Form::Auto } else { Form::TupleString } }),
-            Op::Validate(k, _) => POp::Validate(KEYS[*k].into(), *k),
-            Op::ExtendValidate(k, _) => POp::ExtendValidate(vec![(KEYS[*k].into(), *k)]),
+            Op::Validate(k, kind) => POp::Validate(KEYS[*k].into(), slot_of(*k, *kind)),
+            Op::ExtendValidate(k, kind) => POp::ExtendValidate(vec![(KEYS[*k].into(), slot_of(*k, *kind))]),
             Op::ExtendCheck(k, v) => POp::ExtendCheck(vec![ClaimSpec { key: KEYS[*k].into(), value: val(*k, *v), form: Form::TupleString }]),
         });
-    }
-    // the verdict table follows the *model's* idea of which validator is registered per key (slot = key)
-    adapter::reset_verdicts();
-    for k in 0..3 {
-        if let Some(kind) = ks[k].validator {
-            adapter::set_verdict(k, kind_verdict(k, kind));
+        plan.push(None);
+        if i + 1 < path.len() {
+            for ti in &probes {
+                ops.push(POp::Parse(*ti, pool.tokens[*ti].key));
+                plan.push(Some((*ti, ks, false)));
+            }
         }
     }
-    let nconf = ops.len();
     for i in 0..pool.tokens.len() {
         ops.push(POp::Parse(i, pool.tokens[i].key));
+        plan.push(Some((i, ks, true)));
     }
     ops.push(POp::Parse(0, pool.tokens[0].key)); // the first token again, after all the others
+    plan.push(Some((0, ks, true)));
     let toks: Vec<String> = pool.tokens.iter().map(|t| t.token.clone()).collect();
     let (layer, default) = match flavor {
         Flavor::Generic => (Layer::Generic, false),
@@ -238,28 +270,33 @@ pub fn replay_and_judge(proto: Proto, flavor: Flavor, nkeys: usize, path: &[Op],
         v.broken = Some("parser produced fewer events than operations".into());
         return v;
     }
-    for (i, e) in events.iter().enumerate().take(nconf) {
-        if *e != PEvent::Applied {
-            v.broken = Some(format!("configuration call {:?} produced {:?}", path[i], e));
-            return v;
-        }
-    }
     let mut first_outcome: Option<(bool, Option<ErrClass>)> = None;
-    for (j, e) in events[nconf..].iter().enumerate() {
-        let ti = if j < pool.tokens.len() { j } else { 0 };
-        let PEvent::Parsed(out, calls) = e else {
-            v.broken = Some(format!("parse produced {:?}", e));
-            return v;
-        };
-        PARSES.fetch_add(1, Ordering::Relaxed);
-        judge_parse(&ks, nkeys, &pool.tokens[ti], out, calls, &mut v);
-        // history independence: the first token parsed again after all the others gives the same outcome
-        let summary = (out.is_ok(), out.err().cloned());
-        if j == 0 {
-            first_outcome = Some(summary);
-        } else if j == pool.tokens.len() {
-            if first_outcome.as_ref() != Some(&summary) && v.c15.is_none() {
-                v.c15 = Some(("outcome-depends-on-history".into(), format!("token [{}] gave {:?} first and {:?} after {} other parses with the same parser", pool.tokens[0].label, first_outcome, summary, pool.tokens.len() - 1)));
+    let mut sweep_seen = 0usize;
+    for (e, pl) in events.iter().zip(plan.iter()) {
+        match pl {
+            None => {
+                if *e != PEvent::Applied {
+                    v.broken = Some(format!("a configuration call produced {:?}", e));
+                    return v;
+                }
+            }
+            Some((ti, ks_then, final_sweep)) => {
+                let PEvent::Parsed(out, calls) = e else {
+                    v.broken = Some(format!("parse produced {:?}", e));
+                    return v;
+                };
+                PARSES.fetch_add(1, Ordering::Relaxed);
+                judge_parse(ks_then, nkeys, &pool.tokens[*ti], out, calls, &mut v);
+                if *final_sweep {
+                    // history independence: the first token parsed again after all the others gives the same outcome
+                    let summary = (out.is_ok(), out.err().cloned());
+                    if sweep_seen == 0 {
+                        first_outcome = Some(summary);
+                    } else if sweep_seen == pool.tokens.len() && first_outcome.as_ref() != Some(&summary) && v.c15.is_none() {
+                        v.c15 = Some(("outcome-depends-on-history".into(), format!("token [{}] gave {:?} first and {:?} after {} other parses with the same parser", pool.tokens[0].label, first_outcome, summary, pool.tokens.len() - 1)));
+                    }
+                    sweep_seen += 1;
+                }
             }
         }
     }
@@ -323,18 +360,19 @@ fn judge_parse(ks: &[KeyState; 3], nkeys: usize, t: &PoolToken, out: &Out<Value>
     }
     // ---- C16: the call log
     for c in calls {
-        let ok_slot = c.slot < 3 && registered.contains(&c.slot) && c.key == KEYS[c.slot];
+        let ck = c.slot / 3;
+        let ok_slot = ck < 3 && registered.contains(&ck) && c.key == KEYS[ck] && ks[ck].validator == Some(kind_of_slot(c.slot));
         if !ok_slot {
             c16(v, "unexpected-validator-call", format!("validator call {:?} does not belong to a registered validator (registered for {:?})", c, registered.iter().map(|k| KEYS[*k]).collect::<Vec<_>>()));
             continue;
         }
-        let actual = payload.get(KEYS[c.slot]).cloned().unwrap_or(Value::Null);
+        let actual = payload.get(KEYS[ck]).cloned().unwrap_or(Value::Null);
         if c.value != actual {
             c16(v, "validator-saw-wrong-value", format!("validator for {:?} was given {} but the payload carries {}", c.key, c.value, actual));
         }
     }
     for k in &registered {
-        if calls.iter().filter(|c| c.slot == *k).count() > 1 {
+        if calls.iter().filter(|c| c.slot / 3 == *k).count() > 1 {
             c16(v, "validator-ran-twice", format!("validator for {:?} ran more than once in one parse", KEYS[*k]));
         }
     }
@@ -347,8 +385,8 @@ fn judge_parse(ks: &[KeyState; 3], nkeys: usize, t: &PoolToken, out: &Out<Value>
                 c16(v, "accepted-despite-rejecting-validator", format!("accepted although the validator for {:?} rejects the value", rejecting.iter().map(|k| KEYS[*k]).collect::<Vec<_>>()));
             }
             for k in &registered {
-                if calls.iter().filter(|c| c.slot == *k).count() != 1 {
-                    c16(v, "accepted-without-running-validator", format!("parse succeeded but the validator registered for {:?} ran {} times", KEYS[*k], calls.iter().filter(|c| c.slot == *k).count()));
+                if calls.iter().filter(|c| c.slot / 3 == *k).count() != 1 {
+                    c16(v, "accepted-without-running-validator", format!("parse succeeded but the validator registered for {:?} ran {} times", KEYS[*k], calls.iter().filter(|c| c.slot / 3 == *k).count()));
                 }
             }
             if json != payload {
